@@ -147,6 +147,8 @@ pub fn record(args: &Args) {
             let mut has_sub = false;
             let mut init_inflight = false; // head answered, FetchingHeadHeaderFinished not yet seen
             let mut pending: VecDeque<(u64, u64, Responder)> = VecDeque::new();
+            // responders of cancelled batches are kept alive: a dropped responder looks like a dead P2p worker
+            let mut graveyard: Vec<Responder> = vec![];
             let mut cur_kind = Kind::Ok;
             let mut cur_batch: Option<(u64, u64)> = None;
             let mut failed_seen = false;
@@ -161,9 +163,11 @@ pub fn record(args: &Args) {
             for step in 0..total_steps {
                 let adversarial = step < steps && !force_honest;
                 if early_leave && !force_honest && n_fetch >= 1 && connected && trusted_here {
-                    w::set_peer_counts(&handle, 2, 1);
-                    settle().await;
-                    tw.emit(json!({"name": "plainjoin", "st": world.snapshot(Some(&syncer)).await}));
+                    if !plain_peer {
+                        w::set_peer_counts(&handle, 2, 1);
+                        settle().await;
+                        tw.emit(json!({"name": "plainjoin", "st": world.snapshot(Some(&syncer)).await}));
+                    }
                     w::set_peer_counts(&handle, 1, 0);
                     trusted_here = false;
                     plain_peer = false;
@@ -249,7 +253,7 @@ pub fn record(args: &Args) {
                             plain_peer = false;
                             trusted_here = false;
                             has_sub = false;
-                            pending.clear();
+                            graveyard.extend(pending.drain(..).map(|x| x.2));
                             cur_batch = None;
                             n_disc += 1;
                             settle().await;
@@ -402,6 +406,8 @@ async fn drain_events(
                 *n_fetch += 1;
                 *cur_kind = if mode == "aging" {
                     Kind::Fail
+                } else if mode == "replay" {
+                    *cur_kind
                 } else if !adversarial {
                     Kind::Ok
                 } else {
@@ -558,6 +564,191 @@ pub fn record_aging(args: &Args) {
             for p in ["C25"] {
                 sum.case(p, Some(format!("aging/{run}")), || json!({"mode": "aging", "delta_s": delta, "fetches": n_fetch,
                          "fetches_after_the_tail_left_the_window": fetches_after_aging}));
+            }
+        }
+    });
+    let nev = tw.finish();
+    sum.set("events", json!(nev));
+    sum.write(args.opt("summary").unwrap_or("/dev/stdout"));
+}
+
+/// spec -> impl: environment schedules generated by TLC (Gen_Syncer, simulation of Syncer.tla) are
+/// performed on the real Syncer; what happens is recorded for Trace_Syncer like in `record`.
+pub fn replay(args: &Args) {
+    let cases = h_common::read_cases(args.pos(2));
+    let n = args.opt_u64("n", 10);
+    let batch = args.opt_u64("batch", 2);
+    let k = args.opt_u64("wsamp", 5);
+    let mut tw = TraceWriter::create(args.opt("out").expect("--out"));
+    let mut sum = Summary::new("syncer-replay");
+    let mut rng = StdRng::seed_from_u64(7);
+    h_common::QUIET_ALL.store(true, std::sync::atomic::Ordering::Relaxed);
+    let rt = tokio::runtime::Builder::new_current_thread().enable_all().start_paused(true).build().unwrap();
+    rt.block_on(async {
+        for (ci, c) in cases.iter().enumerate() {
+            let now = Time::now();
+            let base = (now - Duration::from_secs(n * DELTA)).unwrap();
+            let mut ga = ExtendedHeaderGenerator::new();
+            ga.set_time(base, Duration::from_secs(DELTA));
+            let a = ga.next_many_empty(n);
+            let mut gf = ExtendedHeaderGenerator::new();
+            gf.set_time(base, Duration::from_secs(DELTA));
+            let f = gf.next_many_empty(n);
+            let world = World { a, f, store: Arc::new(InMemoryStore::new()) };
+            let wsamp = Duration::from_secs((k - 1) * DELTA + DELTA / 2);
+            tw.emit(json!({"name": "reset", "run": ci, "now": n}));
+            let ops = c["ops"].as_array().unwrap();
+            let mut net_head = ops[0]["h"].as_u64().unwrap();
+            tw.emit(json!({"name": "prefill", "netHead": net_head, "st": world.snapshot(None).await}));
+            let (p2p, mut handle) = w::mocked_p2p();
+            let events = Events::new();
+            let mut sub = events.subscribe();
+            let syncer = VSyncer::start(&p2p, world.store.clone(), &events, batch, wsamp, Duration::from_secs(100_000_000)).unwrap();
+            let mut pending: VecDeque<(u64, u64, Responder)> = VecDeque::new();
+            let (mut cur_batch, mut cur_kind, mut failed_seen, mut n_fetch, mut fatal, mut inflight) = (None, Kind::Ok, false, 0u64, false, false);
+            let (mut peers, mut trusted, mut has_sub) = (0u64, false, false);
+            let mut graveyard: Vec<Responder> = vec![];
+            // let the worker take its own steps: timers, head requests, node events
+            macro_rules! quiesce {
+                () => {
+                    for _ in 0..6 {
+                        tokio::time::sleep(Duration::from_millis(400)).await;
+                        drain_events(&mut sub, &world, &syncer, &mut tw, &mut cur_batch, &mut cur_kind, &mut failed_seen,
+                                     &mut n_fetch, &mut fatal, &mut rng, false, "replay", &mut inflight).await;
+                        while let Some(cmd) = w::try_recv_cmd(&mut handle) {
+                            match cmd {
+                                MockCmd::HeaderEx { request, respond_to } => {
+                                    use celestia_proto::p2p::pb::header_request::Data;
+                                    match request.data {
+                                        Some(Data::Origin(0)) => {
+                                            let _ = respond_to.send(Ok(vec![world.a(net_head)]));
+                                        }
+                                        Some(Data::Origin(h)) => pending.push_back((h, request.amount, respond_to)),
+                                        _ => {}
+                                    }
+                                }
+                                MockCmd::InitHeaderSub { .. } => has_sub = true,
+                                _ => {}
+                            }
+                        }
+                    }
+                };
+            }
+            quiesce!();
+            let mut performed = 0;
+            for op in &ops[1..] {
+                let h = op["h"].as_u64().unwrap();
+                match op["a"].as_str().unwrap() {
+                    "connect" if peers == 0 => {
+                        handle.announce_trusted_peer_connected();
+                        peers = 1;
+                        trusted = true;
+                        settle().await;
+                        tw.emit(json!({"name": "connect", "st": world.snapshot(Some(&syncer)).await}));
+                    }
+                    "disconnect" if peers > 0 => {
+                        handle.announce_all_peers_disconnected();
+                        peers = 0;
+                        trusted = false;
+                        has_sub = false;
+                        graveyard.extend(pending.drain(..).map(|x| x.2));
+                        cur_batch = None;
+                        settle().await;
+                        tw.emit(json!({"name": "disconnect", "st": world.snapshot(Some(&syncer)).await}));
+                    }
+                    "plainjoin" if peers == 1 => {
+                        w::set_peer_counts(&handle, 2, trusted as u64);
+                        peers = 2;
+                        settle().await;
+                        tw.emit(json!({"name": "plainjoin", "st": world.snapshot(Some(&syncer)).await}));
+                    }
+                    "trustedleave" if peers == 2 && trusted => {
+                        w::set_peer_counts(&handle, 1, 0);
+                        peers = 1;
+                        trusted = false;
+                        settle().await;
+                        tw.emit(json!({"name": "trustedleave", "st": world.snapshot(Some(&syncer)).await}));
+                    }
+                    "newblock" if h <= n => {
+                        net_head = h;
+                        tw.emit(json!({"name": "newblock", "netHead": net_head}));
+                    }
+                    "headsub" if has_sub && peers > 0 => {
+                        handle.announce_new_head(world.a(net_head));
+                        settle().await;
+                        tw.emit(json!({"name": "headsub", "h": net_head, "st": world.snapshot(Some(&syncer)).await}));
+                    }
+                    "prune" => {
+                        if world.store.has_at(h).await {
+                            world.store.remove_height(h).await.unwrap();
+                            tw.emit(json!({"name": "prune", "h": h, "st": world.snapshot(Some(&syncer)).await}));
+                        }
+                    }
+                    "mark" => {
+                        if world.store.has_at(h).await {
+                            world.store.mark_as_sampled(h).await.unwrap();
+                            tw.emit(json!({"name": "mark", "h": h, "st": world.snapshot(Some(&syncer)).await}));
+                        }
+                    }
+                    kind @ ("batch_ok" | "batch_foreign" | "batch_fail") => {
+                        // answer every sub-request of the ongoing batch in this way
+                        cur_kind = match kind {
+                            "batch_ok" => Kind::Ok,
+                            "batch_foreign" => Kind::Foreign,
+                            _ => Kind::Fail,
+                        };
+                        let mut next_batch_seen = false;
+                        for _ in 0..40 {
+                            if next_batch_seen {
+                                break;
+                            }
+                            let Some((hh, amt, tx)) = pending.pop_front() else { break };
+                            let top = (hh + amt - 1).min(n);
+                            let ans = match cur_kind {
+                                Kind::Ok => Ok((hh..=top).map(|x| world.a(x)).collect()),
+                                Kind::Foreign => Ok((hh..=top).map(|x| world.f[(x - 1) as usize].clone()).collect()),
+                                Kind::Fail => Err(w::header_ex_error("timeout")),
+                            };
+                            let _ = tx.send(ans);
+                            settle().await;
+                            while let Some(cmd) = w::try_recv_cmd(&mut handle) {
+                                if let MockCmd::HeaderEx { request, respond_to } = cmd {
+                                    use celestia_proto::p2p::pb::header_request::Data;
+                                    if let Some(Data::Origin(h2)) = request.data {
+                                        if h2 == 0 {
+                                            let _ = respond_to.send(Ok(vec![world.a(net_head)]));
+                                        } else if cur_batch.is_some_and(|(lo, hi): (u64, u64)| lo <= h2 && h2 <= hi) && cur_kind != Kind::Fail {
+                                            pending.push_back((h2, request.amount, respond_to));
+                                        } else {
+                                            // the worker has moved on to its next batch: that one is
+                                            // answered by a later batch_* step of the schedule
+                                            pending.push_back((h2, request.amount, respond_to));
+                                            next_batch_seen = true;
+                                        }
+                                    }
+                                }
+                            }
+                            if cur_kind == Kind::Fail {
+                                break;
+                            }
+                        }
+                    }
+                    _ => continue,
+                }
+                performed += 1;
+                // batch kinds recorded by drain_events use cur_kind at the time the batch ends
+                let keep = cur_kind;
+                quiesce!();
+                cur_kind = keep;
+                if fatal {
+                    break;
+                }
+            }
+            tw.emit(json!({"name": "quiescent", "netHead": net_head, "check_live": 0, "st": world.snapshot(Some(&syncer)).await}));
+            syncer.stop();
+            syncer.join().await;
+            for p in ["C25", "C38", "C24"] {
+                sum.case(p, Some(format!("{}", c["ops"])), || json!({"ops": ops, "performed": performed, "fetches": n_fetch}));
             }
         }
     });
